@@ -97,6 +97,7 @@ fn base_inv(lang: &str, mode: Mode, config: String) -> Inv {
         fresh_out: true,
         role: "ref".into(),
         src_age: 0,
+        roots: vec![],
     }
 }
 
@@ -124,12 +125,29 @@ pub fn gen_c06(r: &mut Rng, tier: Tier) -> Case {
     let tree0 = world.render();
     let config = gen::default_config(r, &lang, false);
     let mut versions = vec![tree0];
+    // the CLI accepts several directories: sometimes hand it the crate directories one by one
+    let roots: Vec<String> = if r.chance(1, 5) {
+        let mut v: Vec<String> = world.crates.iter().map(|c| c.dir.clone()).collect();
+        r.shuffle(&mut v);
+        v
+    } else {
+        vec![]
+    };
+    let extra: Vec<String> = match r.below(12) {
+        0 => vec!["--target-os".into(), "linux".into()],
+        1 => vec!["--follow-links".into()],
+        _ => vec![],
+    };
     let mut ops = vec![base_inv(&lang, mode.clone(), config.clone())];
+    ops[0].roots = roots.clone();
+    ops[0].extra = extra.clone();
     let k = if tier == Tier::Quick { 8 } else { 32 };
     let mut split_version = None;
     for _ in 0..k {
         let mut inv = base_inv(&lang, mode.clone(), config.clone());
         inv.role = "var".into();
+        inv.roots = roots.clone();
+        inv.extra = extra.clone();
         match r.below(8) {
             0 => inv.sched = random_sched(r),
             1 => {
@@ -142,7 +160,7 @@ pub fn gen_c06(r: &mut Rng, tier: Tier) -> Case {
                 inv.sched = random_sched(r);
             }
             3 => inv.hash_seed = r.next(),
-            4 if mode == Mode::File => {
+            4 if mode == Mode::File && roots.is_empty() => {
                 // same items, different split over files and directories
                 if split_version.is_none() || r.chance(1, 3) {
                     versions.push(world.resplit(r).render());
@@ -168,6 +186,8 @@ pub fn gen_c06(r: &mut Rng, tier: Tier) -> Case {
     let perm_limit = if tier == Tier::Quick { 4 } else { 6 };
     if r.chance(1, if tier == Tier::Quick { 12 } else { 20 }) {
         let mut inv = base_inv(&lang, mode.clone(), config.clone());
+        inv.roots = roots.clone();
+        inv.extra = extra.clone();
         inv.role = format!("perm_all:{perm_limit}");
         inv.knobs.reorder = u32::MAX;
         inv.knobs.workers = 2;
@@ -393,6 +413,17 @@ pub fn gen_c07(r: &mut Rng, tier: Tier) -> Case {
         if r.chance(1, 12) {
             inv.extra.push("--follow-links".into());
         }
+        match r.below(16) {
+            0 => {
+                let mut v: Vec<String> = world.crates.iter().map(|c| c.dir.clone()).collect();
+                r.shuffle(&mut v);
+                inv.roots = v;
+            }
+            1 => inv.roots = vec![world.crates[0].dir.clone(), "no/such/dir".to_string()],
+            2 => inv.roots = vec![".".to_string(), world.crates[0].dir.clone()],
+            3 => inv.roots = vec![tree[0].path.clone()],
+            _ => {}
+        }
         // faults
         let nf = match r.below(10) {
             0..=4 => 0,
@@ -527,6 +558,8 @@ fn eval_c07(case: &Case, sc: &mut Scratch, res: &mut EvalResult) {
                     let mut candidates: Vec<String> = read_culprits.clone();
                     candidates.extend(edge_paths.iter().map(|p| format!("ws/{p}")));
                     candidates.extend(tree.iter().filter(|f| f.kind != FileKind::Text).map(|f| format!("ws/{}", f.path)));
+                    // a root directory that does not exist (or is a file) is an offending path, too
+                    candidates.extend(inv.roots.iter().map(|r| format!("ws/{}", r.trim_start_matches("./"))));
                     if !candidates.is_empty() && !candidates.iter().any(|c| all.contains(c.as_str())) {
                         push(
                             "DIAGNOSTIC_OMITS_FILE",
